@@ -14,8 +14,9 @@ def compute_preproc_clip_approach(force):
     This POC preprocessing method may be applied before
     applying the POC estimation method.
     """
-    # get data
-    fg0 = np.array(force, copy=True)
+    # get data (as floating point numbers: integer input would otherwise
+    # be filtered with integer arithmetic by the POC methods)
+    fg0 = np.array(force, dtype=float, copy=True)
     # Only use the (initial) approach part of the curve.
     idmax = np.argmax(fg0)
     fg = fg0[:idmax]
